@@ -178,6 +178,14 @@ def AOp.toOp (cfg : Cfg) (s : ASt) : AOp → Template.Op
   | .proposals pending => .proposals (packageProposals cfg.maxProposals pending s.t.uncles).length
   | .txs v keep => .txs (fun l => txBytes (packageTxs cfg v keep l))
 
+/-- `build_cellbase`: the number of cellbase outputs. `no_finalization_target = candidate_number <=
+    finalization_delay_length`, `insufficient_reward_to_create_cell = output.is_lack_of_capacity(0)` =
+    `occupied_capacity > block_reward.total` (the reward cannot pay for the target lock's own cell):
+    in both cases the cellbase has NO output (and no output data), otherwise exactly one, of capacity
+    `block_reward.total` and the finalization target's lock, with empty data -/
+def cellbaseOutputs (finDelay tipNumber rewardTotal occupied : Nat) : Nat :=
+  if decide (tipNumber + 1 ≤ finDelay) || decide (occupied > rewardTotal) then 0 else 1
+
 /-- the sealed template as the verifier model sees it. The contextual oracle fields (`expEpoch`,
     `expTarget`) are what the verifier computes for a block on this tip; `sealBlock` fills the header
     fields the assembler controls. -/
